@@ -179,11 +179,17 @@ def cli_replay(text, ref, ordered):
     """the query over a real flat directory R0 holding files of the model's names and sizes (and one sub-directory)"""
     def rep():
         exe = common.native_binary()
-        for k in (2, 3, 5):
+        # flat directories of files; an empty directory; a directory holding only (empty) sub-directories
+        for k, only_dirs in ((2, False), (3, False), (5, False), (0, False), (2, True)):
+            if only_dirs and 'size' in text.lower():
+                continue            # the model gives every entry its table size; a real directory has its own
             tree = {'R0': {'kind': 'dir'}}
             visited = []; kinds = {}
             for i in range(1, k + 1):
-                tree['R0/' + NAMES[i]] = {'size': SIZES[i], 'mtime_ns': epoch(MTIMES[i]) * 10 ** 9 + MT_NS[i]}; kinds[i] = False
+                if only_dirs:
+                    tree['R0/' + NAMES[i]] = {'kind': 'dir', 'mtime_ns': epoch(MTIMES[i]) * 10 ** 9 + MT_NS[i]}; kinds[i] = True
+                else:
+                    tree['R0/' + NAMES[i]] = {'size': SIZES[i], 'mtime_ns': epoch(MTIMES[i]) * 10 ** 9 + MT_NS[i]}; kinds[i] = False
                 visited.append(i)
             r = common.run_cli(exe, [text], tree)
             got = [l.split('\t') for l in r['stdout'].split('\n')[:-1]]
@@ -196,7 +202,7 @@ def cli_replay(text, ref, ordered):
                 bad = got != want
             if bad or r['status'] != 0:
                 return True, '`%s` over %d entries -> %r, reference %r (status %s)' % (text, k, got, want, r['status'])
-        return False, '`%s` agrees with the reference on flat directories of 2, 3 and 5 entries' % text
+        return False, '`%s` agrees with the reference on flat directories of 2, 3 and 5 files, an empty directory and a directory of 2 sub-directories' % text
     return rep
 
 
@@ -219,6 +225,8 @@ def queries_for(pid):
                 ('name from R0 where size not between 7 and 12 or not not is_dir', lambda v, k: _rows([i for i in v if not (7 <= S[i] <= 12) or k[i]], [name]), False)]
     if pid == 'C05':
         return [('name, size from R0 order by size, name', lambda v, k: _rows(sorted(v, key=lambda i: (S[i], N[i].encode())), [name, size]), True),
+                # a negated function that is both a printed column and (by position) an ordering key
+                ('-length(name), name from R0 order by 1, 2', lambda v, k: _rows(sorted(v, key=lambda i: (-len(N[i]), N[i].encode())), [lambda i: -len(N[i]), name]), True),
                 ('name from R0 order by size - 100 desc, name', lambda v, k: _rows(sorted(v, key=lambda i: (-(S[i] - 100), N[i].encode())), [name]), True),
                 ('name from R0 order by 100 - size, 1', lambda v, k: _rows(sorted(v, key=lambda i: (100 - S[i], N[i].encode())), [name]), True),
                 ('name from R0 order by length(name) desc, name desc', lambda v, k: _rows(sorted(sorted(v, key=lambda i: N[i].encode(), reverse=True), key=lambda i: -len(N[i])), [name]), True)]
@@ -252,7 +260,9 @@ def queries_for(pid):
                 ('size - 1, size + 1, (size + 1) * 2, size + 1 * 2 from R0', lambda v, k: _rows(v, [lambda i: S[i] - 1, lambda i: S[i] + 1, lambda i: (S[i] + 1) * 2, lambda i: S[i] + 2]), False),
                 ('name from R0 where size % 7 = 0 and size / 7 >= 1', lambda v, k: _rows([i for i in v if S[i] % 7 == 0 and S[i] / 7 >= 1], [name]), False)]
     if pid == 'C16':
-        return [("upper(name), length(name), substr(name, 2, 2), concat(name, '-', size) from R0",
+        return [("substr(name, 2), substr(name, -2), least(4, 2), least(4, -2) from R0",
+                 lambda v, k: _rows(v, [lambda i: N[i][1:], lambda i: N[i][-2:], lambda i: 2, lambda i: -2]), False),
+                ("upper(name), length(name), substr(name, 2, 2), concat(name, '-', size) from R0",
                  lambda v, k: _rows(v, [lambda i: N[i].upper(), lambda i: len(N[i]), lambda i: N[i][1:3], lambda i: N[i] + '-' + str(S[i])]), False),
                 ("name, coalesce('', name), lower(upper(name)), substr(name, -1) from R0 where length(name) >= 2",
                  lambda v, k: _rows([i for i in v if len(N[i]) >= 2], [name, name, lambda i: N[i].lower(), lambda i: N[i][-1:]]), False)]
